@@ -717,6 +717,19 @@ def _challenge_and_response(ctx, case, entry, klass, rng, *, data, dcpath, dc_ob
         else:
             ctx.count("dar_skipped_after_parse_failure")
             return dac, dev_uuid, challenge
+        if rng.random() < 0.4:
+            # the response object answered ANOTHER challenge (other device UUID, other beacon) before: what it exports now
+            # depends on the challenge, beacon and credential it holds now
+            import copy as _copy
+
+            other = _copy.copy(dac)
+            other.uuid = bytes(b ^ 0x5A for b in dev_uuid)
+            other.challenge = bytes(b ^ 0xC3 for b in challenge)
+            dar.dac, dar.auth_beacon = other, auth_beacon ^ 0x1
+            dar.export()
+            dar.dac, dar.auth_beacon = dac, auth_beacon
+            del _SIGN_LOG[:]
+            ctx.count("dar_objects_reused")
         out = dar.export()
     except SPSDKError as e:
         ctx.refused(["dar"] + _sig(case, klass), core.exc_brief(e))
